@@ -27,6 +27,7 @@ import (
 	"sort"
 	"strconv"
 	"sync"
+	"sync/atomic"
 	"testing"
 	"time"
 
@@ -52,6 +53,7 @@ type sysHarness struct {
 	sync.Mutex
 	waiting    []*sysWait
 	afterWrite chan struct{}
+	finished   int64 // Process calls that got past their write (atomic)
 	timers     map[*TimerEntry]*sysTimer
 	byId       map[string]*TimerEntry
 	free       bool
@@ -77,6 +79,7 @@ func (h *sysHarness) hook(point string, args ...interface{}) {
 		h.Unlock()
 		<-w.release
 	case "process-after-write":
+		atomic.AddInt64(&h.finished, 1)
 		select {
 		case h.afterWrite <- struct{}{}:
 		default:
@@ -163,8 +166,14 @@ func sysRun(id int, cfg *sysConfig, dir string, acts [][]interface{}, pick func(
 	verifHook = h.hook
 	healthy := true
 	defer func() {
+		// end of the run: with the context cancelled nothing that is still waiting can emit anything new (actions are
+		// interrupted at once, timers stop); every waiting call is then let through and WAITED for, so that no goroutine
+		// of this run reaches the hook after the next run has installed its own
+		cancel()
 		h.Lock()
 		h.free = true
+		n := int64(len(h.waiting))
+		base := atomic.LoadInt64(&h.finished)
 		for _, w := range h.waiting {
 			close(w.release)
 		}
@@ -176,8 +185,13 @@ func sysRun(id int, cfg *sysConfig, dir string, acts [][]interface{}, pick func(
 			}
 		}
 		h.Unlock()
-		cancel()
-		time.Sleep(2 * time.Millisecond)
+		deadline := time.Now().Add(3 * time.Second)
+		for atomic.LoadInt64(&h.finished) < base+n && time.Now().Before(deadline) {
+			time.Sleep(100 * time.Microsecond)
+		}
+		s.crew.Lock()
+		s.crew.Unlock()
+		time.Sleep(time.Millisecond)
 		if healthy && s.store.db != nil {
 			s.store.db.Close()
 		}
